@@ -190,6 +190,15 @@ def D3_storage_table(ctx):
                 if a.kind == 'call' and norm_callee(a.d['callee']).endswith('::insert') and mentions_field(a.d['args'][0], 'read_set') and strip(a.d['args'][1]) == strip(g.d['args'][1]):
                     break
             taken[lv] = t
+            # the same fact read off what the lookup RECORDED (R4 ties the recorded version to the entry that was used): an
+            # MvMemory read version built from the entry's txid means the entry was taken. This spelling survives the lookup
+            # being moved into a generic helper driven through `?`.
+            rec = [a for a in p.events[i:] if a.kind == 'call' and norm_callee(a.d['callee']).endswith('::insert') and mentions_field(a.d['args'][0], 'read_set')
+                   and strip(a.d['args'][1]) == strip(g.d['args'][1])]
+            if rec:
+                t2 = entry_of(rec[0].d['args'][2]) if variant_of(rec[0].d['args'][2]) == 'MvMemory' and mentions(rec[0].d['args'][2], g.d['result']) else None
+                if t is None and t2 is not None:
+                    taken[lv] = t2
         if set(taken) != {'StorageReset', 'Storage'}:
             if ret[0] == 'agg' and ret[2] == 'Ok' or ret[0] == 'call' and callee_matches(ret[1], 'storage_ref'):
                 bad.append((p, f'lookups {sorted(taken)}'))
@@ -264,6 +273,37 @@ def D3_storage_table(ctx):
            what='slot written at/after the newest reset (or no reset) ⇒ that value; otherwise a reset ⇒ zero (the backing store is masked); otherwise backing store. `>` instead of `>=` loses storage written by the creating transaction itself')
 
 
+def pv_roles(ctx, pv):
+    """the parameters of publish_value by what they ARE (their types), not by position: the location, the value, the estimate flag and
+    the write set may be passed one by one or bundled in a private context struct handed over by reference"""
+    tys = [l['ty'] for l in pv.b['locals'][:pv.b['argc'] + 1]]
+
+    def classify(ty):
+        if 'HashSet<' in ty and 'LocationAndType' in ty:
+            return 'ws'
+        if ty.endswith('model::LocationAndType'):
+            return 'loc'
+        if ty.endswith('model::MemoryValue'):
+            return 'val'
+        if ty == 'bool':
+            return 'est'
+        return None
+
+    def role(t):
+        x = strip(t)
+        if x[0] == 'arg' and x[1] < len(tys):
+            return classify(tys[x[1]])
+        if x[0] == 'field' and strip(x[1])[0] == 'arg':
+            st, _, fld = x[2].rpartition('.')
+            for k, fs in ctx.facts.structs.items():
+                if k.endswith('::' + st) or k == st:
+                    for fd in fs:
+                        if fd['name'] == fld:
+                            return classify(fd['ty'])
+        return None
+    return role
+
+
 def W1_mv_mutators(ctx):
     facts = ctx.facts
     muts = collections.defaultdict(set)
@@ -291,17 +331,18 @@ def W1_mv_mutators(ctx):
     ctx.ob('W1', 'model::MVMemory', 'who-mutates-mv-memory', dict(muts) == expected or moved == expected, f'{ {k: sorted(v) for k, v in muts.items()} }',
            what='MV memory has three mutators: publish (insert own version), stale-entry removal, estimate marking')
     pv = idb_fn(ctx, 'publish_value')
+    role = pv_roles(ctx, pv)
     bad = []
     for p in feasible(pv.paths()):
-        ws = [e for e in p.events if e.kind == 'call' and norm_callee(e.d['callee']).endswith('HashSet::insert') and e.d['args'][0] == ('arg', 5)]
+        ws = [e for e in p.events if e.kind == 'call' and norm_callee(e.d['callee']).endswith('HashSet::insert') and role(e.d['args'][0]) == 'ws']
         ins = [e for e in p.events if e.kind == 'call' and norm_callee(e.d['callee']).endswith('BTreeMap::insert')]
-        ok = len(ws) == 1 and len(ins) == 1 and strip(ws[0].d['args'][1]) == ('arg', 2)
+        ok = len(ws) == 1 and len(ins) == 1 and role(ws[0].d['args'][1]) == 'loc'
         if ok:
             key, ent = ins[0].d['args'][1], ins[0].d['args'][2]
             ok = is_field(strip(key), 'TxVersion.txid') and mentions_field(key, 'IncarnationDb.version')
             a = ent[2] if ent[0] == 'call' else ent[3]
-            ok = ok and len(a) == 3 and is_field(strip(a[0]), 'TxVersion.incarnation') and a[1] == ('arg', 3) and a[2] == ('arg', 4)
-            ok = ok and mentions(ins[0].d['args'][0], ('arg', 2)) and mentions_field(ins[0].d['args'][0], 'mv_memory')
+            ok = ok and len(a) == 3 and is_field(strip(a[0]), 'TxVersion.incarnation') and role(a[1]) == 'val' and role(a[2]) == 'est'
+            ok = ok and any(role(x) == 'loc' for x in subterms(ins[0].d['args'][0])) and mentions_field(ins[0].d['args'][0], 'mv_memory')
         if not ok:
             bad.append(p)
     ctx.ob('W1', pv, 'publish-own-version-and-record-location', not bad, f'{len(bad)} deviating path(s)', site=pv.loc(pv.b['lo']),
@@ -527,8 +568,10 @@ def D2_publish_writes(ctx):
             if e.kind == 'call' and e.d['callee'].endswith('::next') and mentions(e.d['args'][0], ('arg', 2)) and not has_call(e.d['args'][0], 'Account::changed_storage_slots'):
                 break
             rest.append(e)
-        pubs = [e for e in rest if is_call(e, 'IncarnationDb::publish_value')]
-        resets = [e for e in rest if is_call(e, 'IncarnationDb::publish_storage_reset')]
+        # the reset marker is published through its one-statement helper or directly
+        allpv = [e for e in rest if is_call(e, 'IncarnationDb::publish_value')]
+        pubs = [e for e in allpv if variant_of(e.d['args'][1]) != 'StorageReset']
+        resets = [e for e in rest if is_call(e, 'IncarnationDb::publish_storage_reset')] + [e for e in allpv if variant_of(e.d['args'][1]) == 'StorageReset']
         ben = [a for a in rest if a.kind == 'atom' and a.d['term'][0] == 'call' and callee_matches(a.d['term'][1], 'Beneficiary::matches')]
         is_ben = ben[0].d['outcome'] == 'true' if ben else None
         pv = {}
@@ -536,9 +579,17 @@ def D2_publish_writes(ctx):
             pv.setdefault(variant_of(e.d['args'][1]), []).append(e)
         seen[kind] += 1
         for e in pubs + resets:
-            est = e.d['args'][3] if is_call(e, 'IncarnationDb::publish_value') else e.d['args'][2]
-            if est != ('arg', 3):
+            # the flag travels as its own argument or as the `estimate` field of a context struct handed over by reference
+            tail = e.d['args'][3:] if is_call(e, 'IncarnationDb::publish_value') else e.d['args'][2:]
+            fwd = False
+            for x in tail:
+                x = strip(x)
+                if x == ('arg', 3) or (x[0] == 'agg' and x[2] in ('', None) and any(strip(y) == ('arg', 3) for y in x[3])):
+                    fwd = True
+            if not fwd:
                 bad.append((p, f'{kind}: estimate flag not forwarded at {site(f, e)}'))
+            if is_call(e, 'IncarnationDb::publish_value') and variant_of(e.d['args'][1]) == 'StorageReset' and variant_of(e.d['args'][2]) != 'StorageReset':
+                bad.append((p, f'{kind}: reset marker published with a value other than MemoryValue::StorageReset'))
         if kind == 'Unchanged':
             if pubs or resets:
                 bad.append((p, 'Unchanged account publishes'))
@@ -675,6 +726,26 @@ def D2_publish_writes(ctx):
     ctx.ob('D2', f, 'publication-table', set(seen) >= {'Unchanged', 'Deleted', 'Created', 'Updated'} and not bad,
            '; '.join(sorted(set(w for _, w in bad))[:4]) + f' kinds={dict(seen)}', site=f.loc(f.b['lo']),
            what='Unchanged ⇒ nothing; Deleted ⇒ StorageReset (+Basic(None) unless beneficiary); Created ⇒ StorageReset + account; Updated ⇒ no reset; Code published ⇔ has code ∧ code present ∧ (no snapshot ∨ snapshot hash ≠ new hash); Basic published when code/nonce/balance changed; every changed slot published with its present value; estimate flag forwarded')
+    # the reset helper (when the tree has one) publishes exactly the marker, for the address it was given, forwarding flag and write set
+    try:
+        rs = idb_fn(ctx, 'publish_storage_reset')
+    except AnchorLost:
+        rs = None
+    if rs is not None:
+        badr = []
+        nr = 0
+        for p in feasible(rs.paths()):
+            pc = [e for e in p.events if is_call(e, 'IncarnationDb::publish_value')]
+            ok = len(pc) == 1
+            if ok:
+                a = pc[0].d['args']
+                nr += 1
+                ok = variant_of(a[1]) == 'StorageReset' and a[1][0] == 'agg' and [strip(x) for x in a[1][3]] == [('arg', 2)] and variant_of(a[2]) == 'StorageReset' \
+                    and [strip(x) for x in a[3:]] == [('arg', 3), ('arg', 4)]
+            if not ok:
+                badr.append(p)
+        ctx.ob('D2', rs, 'reset-helper-publishes-the-marker', nr >= 1 and not badr, f'{len(badr)} deviating path(s)', site=rs.loc(rs.b['lo']),
+               what='publish_storage_reset(address, estimate, write_set) publishes StorageReset(address) -> MemoryValue::StorageReset with the same flag and write set')
     # the two snapshot closures
     cls = ctx.facts.closures_of(f.name)
     ctx.ob('K1', f, 'snapshot-comparison-closures', k1[0] >= 1 and k1[1] >= 1, f'paths deciding code by snapshot.code_hash vs new hash={k1[0]}, basic by nonce/balance={k1[1]}', site=f.loc(f.b['lo']),
